@@ -106,7 +106,12 @@ def rejection_loops(funcs, results):
         pp = [p for p in pre if p.stop == head]
         if len(pp) != 1:
             ob(results, f'{fn}: prefix', tags, False, f'{len(pp)} prefix paths'); continue
-        jl = f.debug_of['j']
+        jl = f.debug_of.get('j')
+        if not jl:      # renamed: the accepted-coefficient counter is the only usize user variable initialised with 0
+            import lemmas as _LM
+            c = _LM.user_vars(f, r'^usize$', r'const 0_usize'); jl = c[0] if len(c) == 1 else None
+        if not jl:
+            results.append({'name': f'{fn}: counter local', 'tags': tags, 'verdict': 'refused', 'detail': str(list(f.debug_of))[:200]}); continue
         xof = [c for c in pp[0].calls if skel.short_callee(c['callee']) in ('g128_xof', 'h256_xof')]
         want_xof = 'g128_xof' if fn == 'rej_ntt_poly' else 'h256_xof'
         okp = len(xof) == 1 and skel.short_callee(xof[0]['callee']) == want_xof and xof[0]['args'] == ['&rhos'] and E0.concrete(pp[0].st[jl]) == 0
@@ -195,7 +200,13 @@ def sample_in_ball(funcs, results):
     st = dict(pp[0].st); st.pop('@stop', None); st.pop('@trail', None); st['@calls'] = ()
     i = z3.BitVec('i', 64)
     C = z3.Array('C', z3.BitVecSort(64), z3.BitVecSort(32)); H = z3.Array('Hs', z3.BitVecSort(64), z3.BitVecSort(8))
-    cl = f.debug_of['c']; hl = f.debug_of['h']
+    cl = f.debug_of.get('c'); hl = f.debug_of.get('h')
+    if not cl or not hl:
+        import lemmas as _LM
+        c1 = _LM.user_vars(f, r'^(types::)?R$'); c2 = _LM.user_vars(f, r'^\[u8; 8\]$')
+        cl = cl or (c1[0] if len(c1) == 1 else None); hl = hl or (c2[0] if len(c2) == 1 else None)
+    if not cl or not hl:
+        results.append({'name': 'sample_in_ball: locals c / h', 'tags': tags, 'verdict': 'refused', 'detail': str(list(f.debug_of))[:200]}); return
     st[opt] = e2.Enum(z3.BitVecVal(1, 64), {1: [e2.Val(i, 'usize')]})
     st['@arrays'] = {cl + '.0': C, hl: H}
     st.pop(hl, None); st.pop(cl, None)
